@@ -758,5 +758,175 @@ theorem runMS_ids (hH : HashOK H) {S : Tree → Prop} (hi : Inj H S) {names : Li
         rw [e] at this
         exact this
 
+
+/-- The commit ids of a history in canonical form: height and the hash of the commit info built in
+mount order — independent of the iteration orders actually used and of everything but the trees. -/
+def canonIds (names : List Name) : Nat → List (List Name × (Name → Option Tree)) → List CID
+  | _, [] => []
+  | k, (_, nx) :: rest => ⟨(k : Int) + 1, (nextCI (H := H) names nx k).hash H⟩ :: canonIds names (k + 1) rest
+
+theorem isOrder_self {names : List Name} (hnd : names.Nodup) : IsOrder names names := ⟨hnd, fun _ => Iff.rfl⟩
+
+theorem runMS_canon (hH : HashOK H) {S : Tree → Prop} (hi : Inj H S) {names : List Name} :
+    ∀ (blocks : List (List Name × (Name → Option Tree))) (hs : Name → List (Option Tree)) (k : Nat) (s : MStore),
+      GoodMS H S names hs k s → GoodBlocks S names hs k blocks →
+      ∃ s', runMS H s (blocks.map fun b => (b.1, fullBlock names b.2)) = some (s', canonIds (H := H) names k blocks) ∧
+        GoodMS H S names (histsAfter hs blocks) (k + blocks.length) s' := by
+  intro blocks
+  induction blocks with
+  | nil => intro hs k s g _; exact ⟨s, rfl, by simpa [histsAfter] using g⟩
+  | cons b rest ih =>
+    intro hs k s g hb
+    obtain ⟨order, nx⟩ := b
+    obtain ⟨ho, hstep, hrest⟩ := hb
+    obtain ⟨s', dbOf, hc, g', _⟩ := commitMS_good hH hi g nx order ho hstep
+    obtain ⟨s'', hrun, g''⟩ := ih _ _ s' g' hrest
+    refine ⟨s'', ?_, ?_⟩
+    · simp only [List.map_cons, runMS, hc, hrun, Option.map_some, canonIds]
+      rw [nextCI_hash_order ho (isOrder_self g.nodup) nx k]
+    · have : k + 1 + rest.length = k + (rest.length + 1) := by omega
+      simpa [histsAfter, this] using g''
+
+theorem canonIds_append (names : List Name) : ∀ (l₁ l₂ : List (List Name × (Name → Option Tree))) (k : Nat),
+    canonIds (H := H) names k (l₁ ++ l₂) = canonIds (H := H) names k l₁ ++ canonIds (H := H) names (k + l₁.length) l₂ := by
+  intro l₁
+  induction l₁ with
+  | nil => intro l₂ k; simp [canonIds]
+  | cons b l ih =>
+    intro l₂ k
+    obtain ⟨o, nx⟩ := b
+    simp only [List.cons_append, canonIds, ih, List.length_cons]
+    have : k + 1 + l.length = k + (l.length + 1) := by omega
+    rw [this]
+
+theorem GoodBlocks.split {S : Tree → Prop} {names : List Name} : ∀ (l₁ l₂ : List (List Name × (Name → Option Tree)))
+    (hs : Name → List (Option Tree)) (k : Nat), GoodBlocks S names hs k (l₁ ++ l₂) →
+      GoodBlocks S names hs k l₁ ∧ GoodBlocks S names (histsAfter hs l₁) (k + l₁.length) l₂ := by
+  intro l₁
+  induction l₁ with
+  | nil => intro l₂ hs k h; exact ⟨trivial, by simpa [histsAfter] using h⟩
+  | cons b l ih =>
+    intro l₂ hs k h
+    obtain ⟨o, nx⟩ := b
+    obtain ⟨h1, h2, h3⟩ := h
+    obtain ⟨h4, h5⟩ := ih l₂ _ _ h3
+    refine ⟨⟨h1, h2, h4⟩, ?_⟩
+    have : k + 1 + l.length = k + (l.length + 1) := by omega
+    simpa [histsAfter, this] using h5
+
+theorem histsAfter_append (hs : Name → List (Option Tree)) : ∀ (l₁ l₂ : List (List Name × (Name → Option Tree))),
+    histsAfter hs (l₁ ++ l₂) = histsAfter (histsAfter hs l₁) l₂ := by
+  intro l₁
+  induction l₁ generalizing hs with
+  | nil => intro l₂; rfl
+  | cons b l ih => intro l₂; obtain ⟨o, nx⟩ := b; simp [histsAfter, ih]
+
+theorem histsAfter_take (l : List (List Name × (Name → Option Tree))) (n : Name) :
+    ∀ (hs : Name → List (Option Tree)) (h : Nat), h ≤ l.length →
+      histsAfter hs (l.take h) n = (histsAfter hs l n).take ((hs n).length + h) := by
+  induction l with
+  | nil => intro hs h hh; simp at hh; subst hh; simp [histsAfter]
+  | cons b l ih =>
+    intro hs h hh
+    obtain ⟨o, nx⟩ := b
+    cases h with
+    | zero =>
+      simp only [List.take_zero, histsAfter, Nat.add_zero]
+      -- the history only grows
+      have grow : ∀ (l : List (List Name × (Name → Option Tree))) (hs : Name → List (Option Tree)),
+          (histsAfter hs l n).take (hs n).length = hs n := by
+        intro l
+        induction l with
+        | nil => intro hs; simp [histsAfter]
+        | cons b l ih2 =>
+          intro hs; obtain ⟨o, nx⟩ := b
+          simp only [histsAfter]
+          have := ih2 (fun m => hs m ++ [nx m])
+          simp only [List.length_append, List.length_cons, List.length_nil] at this
+          have h2 : (histsAfter (fun m => hs m ++ [nx m]) l n).take (hs n).length =
+              ((histsAfter (fun m => hs m ++ [nx m]) l n).take ((hs n).length + 1)).take (hs n).length := by
+            rw [List.take_take]; congr 1; omega
+          rw [h2, this]; simp
+      exact (grow ((o, nx) :: l) hs).symm
+    | succ h =>
+      simp only [List.take_succ_cons, histsAfter]
+      rw [ih _ h (by simpa using hh)]
+      simp only [List.length_append, List.length_cons, List.length_nil]
+      congr 1; omega
+
+
+/-! ### RollbackVersion -/
+
+/-- `rootmulti.RollbackVersion(h)` on a disk with `k` commits, `1 ≤ h < k`: it succeeds and leaves a
+good multistore disk for the first `h` commits (substore trees, commit infos `1..h`, latest = `h`). -/
+theorem rollbackMS_good (hH : HashOK H) {S : Tree → Prop} (hi : Inj H S) {names : List Name} {hs : Name → List (Option Tree)}
+    {k : Nat} {d : Disk} (gd : GoodDiskMS H S names hs k d) (hlen : ∀ n ∈ names, (hs n).length = k)
+    (h : Nat) (h1 : 1 ≤ h) (hh : h < k) :
+    ∃ s', rollbackMS d names h = some s' ∧ GoodDiskMS H S names (fun n => (hs n).take h) h s'.disk ∧
+      ∀ v : Int, v ≤ h → aget v s'.disk.cinfos = aget v d.cinfos := by
+  have hlat : d.latestVersion = k := by
+    unfold Disk.latestVersion
+    rw [gd.recs.latest]
+    have : ¬ k = 0 := by omega
+    simp [this]
+  obtain ⟨ci, hci, hv, hver⟩ := gd.recs.cinfo k (by omega) (by omega)
+  let rb : Name → MTree := fun n =>
+    (((loadStore (d.storeDB n) (k : Int)).bind fun t => loadVersionForOverwriting t (h : Int)).map (·.1)).getD default
+  have hrb : ∀ n ∈ names, rollbackStore (d.storeDB n) (ci.verOf n) (h : Int) n = some (n, rb n) ∧
+      GoodTree H S ((hs n).take h) (rb n) := by
+    intro n hn
+    obtain ⟨g0, hok0, _⟩ := gd.store n hn
+    have hl := hlen n hn
+    obtain ⟨r, hr, hload⟩ := loadStore_recovered hH g0 hok0 (k : Int) (by omega) (by omega)
+    obtain ⟨t', r', hb, _, _, gt⟩ := rollback_store_good hH hi (t := recovered (d.storeDB n) k r) g0 hok0 rfl h h1 (by omega)
+    unfold rollbackStore
+    rw [hver n hn, hload]
+    simp only [hb, Option.map_some]
+    have : rb n = t' := by simp only [rb, hload, Option.bind_some, hb, Option.map_some, Option.getD_some]
+    rw [this]
+    exact ⟨rfl, gt⟩
+  refine ⟨⟨{}, names.map (fun n => (n, rb n)), d.cinfos.filter (fun e => !(decide ((h : Int) + 1 ≤ e.1) && decide (e.1 ≤ (k : Int)))), some (h : Int)⟩, ?_, ?_, ?_⟩
+  · unfold rollbackMS
+    rw [hlat]
+    have : ¬ ((h : Int) ≥ k) := by omega
+    simp only [this, if_false, hci]
+    rw [mapM_some _ (fun n => (n, rb n)) names (fun n hn => (hrb n hn).1)]
+  · refine ⟨gd.nodup, by simp [MStore.disk, List.map_map, Function.comp_def], ?_, ⟨?_, ?_, ?_⟩⟩
+    · intro n hn
+      rw [MStore.disk_storeDB]
+      simp only
+      rw [aget_map_names rb names n, if_pos hn]
+      obtain ⟨g0, hok0, _⟩ := gd.store n hn
+      refine ⟨(hrb n hn).2.disk, ?_, by simp [hlen n hn]; omega⟩
+      exact ⟨fun ot hot => hok0.inS ot (List.mem_of_mem_take hot), fun ot hot => hok0.wf ot (List.mem_of_mem_take hot),
+        fun i t hi' => by
+          rw [List.getElem?_take] at hi'
+          split at hi'
+          · exact hok0.vbound i t hi'
+          · cases hi'⟩
+    · intro v hv1 hv2
+      simp only [MStore.disk]
+      rw [aget_filter (fun x => !(decide ((h : Int) + 1 ≤ x) && decide (x ≤ (k : Int))))]
+      have : ¬ ((h : Int) + 1 ≤ v) := by omega
+      simp only [this, decide_false, Bool.false_and, Bool.not_false, if_true]
+      exact gd.recs.cinfo v hv1 (by omega)
+    · intro v hv
+      simp only [MStore.disk]
+      rw [aget_filter (fun x => !(decide ((h : Int) + 1 ≤ x) && decide (x ≤ (k : Int))))]
+      by_cases hq : (h : Int) + 1 ≤ v ∧ v ≤ k
+      · simp [hq.1, hq.2]
+      · have : (!(decide ((h : Int) + 1 ≤ v) && decide (v ≤ (k : Int)))) = true := by
+          simp only [Bool.not_eq_true', Bool.and_eq_false_imp, decide_eq_true_eq, decide_eq_false_iff_not]
+          intro a b; exact hq ⟨a, b⟩
+        rw [if_pos this]
+        apply gd.recs.cinfo_none
+        omega
+    · simp [MStore.disk]; omega
+  · intro v hv
+    simp only [MStore.disk]
+    rw [aget_filter (fun x => !(decide ((h : Int) + 1 ≤ x) && decide (x ≤ (k : Int))))]
+    have : ¬ ((h : Int) + 1 ≤ v) := by omega
+    simp [this]
+
 end ms
 end NodeDB
